@@ -511,7 +511,7 @@ def check_dict_concat(ctx):
     want = {'dicts': 'as_list(dicts)', 'possible_keys': 'list(set([tuple(sorted(d.keys())) for d in dicts]))', 'keys': None, 'values': 'zip(*[[value for _, value in row] for row in pairs])',
             'res': 'dict(zip(keys, map(list, values)))'}
     for k, w in want.items():
-        if w is not None and defs.get(k) != w:
+        if w is not None and defs.get(k) != NS(w):
             ctx.fail(d, d.node, 'dict_concat: `%s = %s`, expected `%s`' % (k, defs.get(k), w), stmt='dict_concat %s' % k)
     ks = [N(s.value) for s in body_nodes(d.node) if isinstance(s, ast.Assign) and U(s.targets[0]) == 'keys']
     if ks != ['possible_keys[0]', NS('reduce(lambda res, keys: res | set(keys), possible_keys, set())')]:
